@@ -445,8 +445,34 @@ class LazyMasked:
     def __array__(self, *a, **k): return self.force().__array__(*a, **k)
 
 
+def same_mask(m1, m2):
+    """identical object, or cell-wise structurally identical terms"""
+    if m1 is m2:
+        return True
+    r1, r2 = _raw(m1), _raw(m2)
+    if r1.shape != r2.shape:
+        return False
+    for a, b in zip(r1.flat, r2.flat):
+        if isinstance(a, SBool) and isinstance(b, SBool):
+            if not a.t.eq(b.t):
+                return False
+        elif isinstance(a, SVal) or isinstance(b, SVal):
+            return False
+        elif bool(a) != bool(b):
+            return False
+    return True
+
+
 def _binop_forcer(name):
     def f(self, *a):
+        # element-wise operations with a scalar or with another selection through the SAME mask stay lazy:
+        # they are applied to every base position; positions outside the mask are never observed.
+        if self._forced is None and self.base is not None and type(self) is LazyMasked and len(a) <= 1:
+            o = a[0] if a else None
+            if o is None or (not isinstance(o, (_nd, list, tuple, LazyMasked))):
+                return LazyMasked(getattr(self.base, name)(*a), self.mask)
+            if type(o) is LazyMasked and o._forced is None and o.base is not None and same_mask(o.mask, self.mask):
+                return LazyMasked(getattr(self.base, name)(o.base), self.mask)
         return getattr(self.force(), name)(*a)
     return f
 
@@ -684,7 +710,18 @@ def _sym_setitem(a, idx, val):
         rm = _raw(m)
         if rm.shape != ra.shape[:rm.ndim]:
             raise IndexError('boolean index did not match indexed array')
-        if isinstance(val, LazyMasked) and val.mask is m and val._forced is None and val.base is not None:
+        if core.cur().resolve_masks:
+            rm2 = _np.empty(rm.shape, dtype=object)
+            ctx = core.cur()
+            for ix in _np.ndindex(rm.shape):
+                c = rm[ix]
+                if isinstance(c, SBool):
+                    f = ctx.forced(c.t)
+                    c = c if f is None else f
+                rm2[ix] = c
+            rm = rm2
+        if isinstance(val, LazyMasked) and type(val) is LazyMasked and val._forced is None and val.base is not None \
+                and same_mask(val.mask, m):
             src = _raw(val.base)
             for ix in _np.ndindex(rm.shape):
                 ra[ix] = ite_merge(rm[ix], _cv(src[ix], a.ldtype), ra[ix]) if rm.ndim < ra.ndim else \
